@@ -239,7 +239,11 @@ fn run(prop: &str, tier: Tier, seed: u64) -> i32 {
             let denom = st.evaluations.saturating_sub(excluded).max(1) as f64;
             for (l, min) in s.min_label_rates() {
                 let c = *st.labels.get(*l).unwrap_or(&0) as f64;
-                if st.failures.is_empty() && c / denom < *min {
+                // a miss only counts when it is statistically significant (6 standard deviations of the binomial
+                // count below the expected minimum): sub checks with a few hundred cases would otherwise flag
+                // sampling noise, and timing dependent labels vary with the load of the machine
+                let sd = (denom * *min * (1.0 - *min)).max(0.0).sqrt();
+                if st.failures.is_empty() && c + 6.0 * sd < *min * denom {
                     summary.infra_errors.push(format!(
                         "generator health: label '{}' of {} reached {:.4} < {:.4}",
                         l,
